@@ -45,7 +45,7 @@ type c01ev struct {
 
 func (e c01ev) String() string { return fmt.Sprintf("%s@%d", e.Type, e.Gen) }
 
-var c01recipes = []string{"none", "none", "R1b-reader-parked-after-reset", "R4b-namespace-added-after-flag", "R1-reader-parked-after-copy", "R2-event-parked-after-flag-read", "R3-second-reader-while-locked", "R4-namespace-added-during-unlock", "R5-event-parked-after-cache-update", "R6-slow-consumer", "ns-scope-changes"}
+var c01recipes = []string{"none", "none", "R1b-reader-parked-after-reset", "R4b-namespace-added-after-flag", "R1-reader-parked-after-copy", "R2-event-parked-after-flag-read", "R3-second-reader-while-locked", "R4-namespace-added-during-unlock", "R5-event-parked-after-cache-update", "R6-slow-consumer", "ns-scope-changes", "R7-initial-add-lags-behind-view"}
 
 func TestC01(t *testing.T) {
 	e := vlib.GetEnv()
@@ -117,6 +117,16 @@ func c01shape(kc *kcase, recipe string, rng interface{ IntN(int) int }) {
 			return r
 		}
 		kc.Pre, kc.Between, kc.Mid = clean(kc.Pre), nil, nil
+	case "R7-initial-add-lags-behind-view":
+		b.SelShape, b.Sel = "all-namespaces", vlib.KSel{}
+		if rng.IntN(2) == 0 {
+			b.Events = []string{"Modified"}
+		}
+		// an object known to AddMonitor's list is modified before the informer lists it itself
+		kc.Pre = append(kc.Pre, kop{Op: "put", Ns: "ns1", Name: "r7", Lbl: map[string]string{"sel": "x"}})
+		kc.Between = []kop{{Op: "put", Ns: "ns1", Name: "r7", Lbl: map[string]string{"sel": "y"}}}
+		kc.Mid = nil
+		return
 	case "R3-second-reader-while-locked":
 		b.SelShape, b.Sel = "all-namespaces", vlib.KSel{}
 		// a second binding in another queue that includes b's snapshot is the second reader
@@ -294,6 +304,37 @@ func c01recipe(recipe string, kc *kcase) (install, drive, steady func(sys *vlib.
 			synctest.Wait()
 			doneGate.Release() // unlock: the buffered event is replayed
 			synctest.Wait()
+		}
+	case "R7-initial-add-lags-behind-view":
+		// client-go reports HasSynced as soon as the initial list is queued for the handlers, not when the
+		// handlers have run: the informer's own initial Add of an object that AddMonitor's list already
+		// cached (and that changed in between) is held back until the Synchronization hook got its view and
+		// the binding is unlocked. The change is a modification of an object of the view.
+		var gate *vlib.Gate
+		install = func(sys *vlib.Sys, rec *krecord) {
+			gate = vlib.NewGate() // created inside the bubble: parking on it is durable
+			mon := ""
+			if h := sys.Op.HookManager.GetHook(kc.Hooks[0].Rel); h != nil {
+				for _, kb := range h.Config.OnKubernetesEvents {
+					if kb.BindingName == kc.Hooks[0].Binds[0].Name {
+						mon = kb.Monitor.Metadata.MonitorId
+					}
+				}
+			}
+			sys.Pts.On("ri.ev.enter", func(ev vlib.PointEvent) {
+				if mon != "" && ev.Args[0].(string) == mon && fmt.Sprint(ev.Args[3]) == "ns1/ConfigMap/r7" && fmt.Sprint(ev.Args[4]) == "Added" {
+					gate.Park()
+				}
+			})
+			sysCleanup(sys, gate)
+		}
+		steady = func(sys *vlib.Sys, rec *krecord) {
+			if gate.Hit() {
+				rec.Armed[recipe] = true
+				rec.Trace = append(rec.Trace, "R7: the informer's initial Add of ns1/r7 was held back until now (after the Synchronization run and the unlock)")
+			}
+			gate.Release()
+			sys.Settle(100)
 		}
 	case "R6-slow-consumer":
 		// the single events consumer is slow: the capacity-1 channel back-pressures the informers
